@@ -54,7 +54,7 @@ def encErr : Err → List Sexp
   | .syntax => [.atom "syntax"]
   | .json => [.atom "json"]
   | .dimTooLow n => [.atom "dimTooLow", .ofNat n]
-  | .other s => [.atom "other", .atom s]
+  | .other _ => [.atom "other"]
 
 def decErr : List Sexp → Option Err
   | [.atom "strideMismatch", g, w] => do pure (.strideMismatch (← nat g) (← nat w))
